@@ -209,6 +209,9 @@ def judge(ctx, cases, rows, label):
     anyc = {}
     for i in sorted(rows):
         c, row = cases[i], rows[i]
+        if row.get("not_run_after_hangs"):
+            ctx.extra["not_run_after_hangs"] = ctx.extra.get("not_run_after_hangs", 0) + 1
+            continue
         calls += row.get("calls", 0)
         units += row.get("units", 0)
         sparse += row.get("sparse", 0)
